@@ -29,7 +29,7 @@ func C16(c *run.Ctx) {
 	c.Need("c16_tokens_after_approval", 1)
 	c.Need("c16_refused_polls", 1)
 	c.Need("c16_replays", 1)
-	events := []string{"accept", "reject", "pollR", "pollW", "pollWbody", "pollWpub", "pollRsplit", "expire", "tick"}
+	events := []string{"accept", "reject", "pollR", "pollW", "pollWbody", "pollWpub", "pollRsplit", "expire", "tick", "age2h"}
 	maxLen := 4
 	if !c.Quick() {
 		maxLen = 6
@@ -59,7 +59,15 @@ func C16(c *run.Ctx) {
 		withRefresh := variant&2 != 0
 		openid := variant&4 != 0
 		db := (si/8)%3 == 0
-		w := world.New(world.Opts{Mode: world.Mode{ContractDevice: contract, DB: db, Hydrate: (si/3)%2 == 1}, JWTAccess: (si/24)%2 == 1, Cfg: func(cfg *fosite.Config) {
+		hydrate := (si/3)%2 == 1
+		for _, e := range seq {
+			if e == "age2h" {
+				// what the long wait is there for: a store that has dropped the expired access-token row and reports "no row"
+				// when asked to revoke it, while the refresh token of the same grant lives on
+				contract, withRefresh, hydrate = true, true, true
+			}
+		}
+		w := world.New(world.Opts{Mode: world.Mode{ContractDevice: contract, DB: db, Hydrate: hydrate}, JWTAccess: (si/24)%2 == 1, Cfg: func(cfg *fosite.Config) {
 			cfg.DeviceAndUserCodeLifespan = 5 * time.Minute
 			cfg.TokenEntropy = []int{0, 1, 16, 32, 48}[(si/7)%5] // whatever is configured, codes carry at least 32 random bytes
 		}})
@@ -116,6 +124,10 @@ func C16(c *run.Ctx) {
 			case "tick":
 				world.Sleep(7 * time.Second)
 				hist = append(hist, "advance 7s")
+			case "age2h":
+				// the access token issued from the code outlives neither this nor (in a store with a TTL) its row; the refresh token does
+				world.Sleep(2 * time.Hour)
+				hist = append(hist, "advance 2h")
 			case "expire":
 				if !expired {
 					world.Sleep(d.exp.Add(time.Second).Sub(now))
